@@ -185,13 +185,30 @@ pub fn make_mutators(kinds: &[u8], unsafe_m: bool, spy: &Option<Arc<Mutex<Vec<Sp
 pub fn build_generator(c: &Config, seed: Option<u64>, spy: Option<Arc<Mutex<Vec<SpyRec>>>>) -> Generator {
     let mut g = Generator::new(version(c.protocol));
     if !(c.min_opcodes == 60 && c.max_opcodes == 300) {
-        g = g.with_opcode_range(c.min_opcodes, c.max_opcodes);
+        // both ways of setting the range are part of the API: the pair builder, or the two single
+        // builders (chosen by the configuration itself, so a replay does the same)
+        if (c.min_opcodes + c.max_opcodes) % 3 == 0 {
+            g = g.with_max_opcodes(c.max_opcodes).with_min_opcodes(c.min_opcodes);
+        } else {
+            g = g.with_opcode_range(c.min_opcodes, c.max_opcodes);
+        }
+    }
+    if let Some(b) = c.bufsize {
+        g = g.with_buffer_size(b);
     }
     if let Some(s) = seed {
         g = g.with_seed(s);
     }
     if !c.mutators.is_empty() {
-        g = g.with_mutators(make_mutators(&c.mutators, c.unsafe_mutations, &spy));
+        // lists of odd length are registered one by one (`with_mutator`), the others at once
+        let ms = make_mutators(&c.mutators, c.unsafe_mutations, &spy);
+        if ms.len() % 2 == 1 {
+            for m in ms {
+                g = g.with_mutator(m);
+            }
+        } else {
+            g = g.with_mutators(ms);
+        }
     }
     if c.rate_via_field {
         g.mutation_rate = c.rate;
